@@ -5,6 +5,7 @@ pattern -- chosen so that a finding in scope breaks *that* property for some cal
 STATE-MEMO : no stale memoised state (memo.py)
 """
 import os
+import ast
 import re
 import shutil
 import tempfile
@@ -119,8 +120,25 @@ def state_memo(check):
     positive_example()
     fs, st = memo.analyse(proj, classes)
     nrep = 0
+    # helpers the in-scope methods call on their own object (self.helper(...)), transitively, belong to the scope
+    called = set()
+    work = [g for c in classes for g in c.methods.values() if in_scope(pid, g)]
+    while work:
+        g = work.pop()
+        if not g.has_self or g.cls is None:
+            continue
+        for n in ast.walk(g.node):
+            if isinstance(n, ast.Attribute) and isinstance(n.value, ast.Name) and n.value.id == g.params[0]:
+                for c in classes:
+                    if any(b is g.cls for b in proj.mro(c)) or any(b is c for b in proj.mro(g.cls)):
+                        h = c.methods.get(n.attr)
+                        if h is not None and h.qualname not in called:
+                            called.add(h.qualname)
+                            work.append(h)
     for f in fs:
-        if not in_scope(pid, f.func) and not (f.level in ("class-level attribute", "class-level container") and f.func.cls is not None and any(f.func.cls is c for c in classes) and any(in_scope(pid, g) for g in f.func.cls.methods.values() if g.name != "__init__")):
+        if not in_scope(pid, f.func) and f.func.qualname not in called and not (f.level in ("class-level attribute", "class-level container") and f.func.cls is not None and any(f.func.cls is c for c in classes)
+                                              and any(in_scope(pid, g) for c in classes if any(b is f.func.cls for b in proj.mro(c)) for g in c.methods.values() if g.name != "__init__")):
+            # (state on the CLASS is shared with the subclasses: their in-scope methods read it through the inherited ones)
             continue
         nrep += 1
         check.violation("STATE-MEMO", f.func.qualname, f.message, "%s:%d" % (f.func.module.relpath, f.line), key=f.key)
